@@ -1400,6 +1400,536 @@ theorem removeCache_curvature (cfg : Cfg) (s : St Ph C β σ τ π κ) (x : χ) 
 
 end final
 
+
+/-! ### every cache is keyed by the phase it belongs to
+
+Two statements, for every query that takes a phase argument (`phase=` of the diffusivity getters,
+`precPhase=` of the driving-force / curvature getters):
+  * **writes** (`Kept`): the query changes no cache entry of any OTHER phase;
+  * **reads** (`Agree` / `Sim`): its result, and the entries of its own phase afterwards, are
+    determined by the entries of its own phase (and the shared `_matrix_cs`, sampling density) —
+    whatever the entries of the other phases hold.
+Together: a query for phase p never reads an entry written for a phase q ≠ p. -/
+section phasekeys
+open KawinV.CompSetCache
+
+variable {Ph C β σ ρ τ π χ δ V D κ : Type} [DecidableEq Ph] [DecidableEq τ]
+variable (E : Env Ph C β σ ρ τ π χ δ V D κ)
+
+/-- `s'` has the same entries as `s` for every precipitate phase outside `P` and every diffusivity
+phase outside `Dp` -/
+def Kept (P Dp : Ph → Prop) (s s' : St Ph C β σ τ π κ) : Prop :=
+  (∀ q, ¬ P q → s'.dfCache q = s.dfCache q ∧ s'.points q = s.points q ∧
+      s'.curvCache q = s.curvCache q ∧ s'.curvOut q = s.curvOut q) ∧
+  (∀ q, ¬ Dp q → s'.diffCache q = s.diffCache q)
+
+theorem Kept.refl (P Dp : Ph → Prop) (s : St Ph C β σ τ π κ) : Kept P Dp s s :=
+  ⟨fun _ _ => ⟨rfl, rfl, rfl, rfl⟩, fun _ _ => rfl⟩
+
+theorem Kept.trans {P Dp : Ph → Prop} {a b c : St Ph C β σ τ π κ} (h1 : Kept P Dp a b) (h2 : Kept P Dp b c) :
+    Kept P Dp a c :=
+  ⟨fun q hq => ⟨((h2.1 q hq).1).trans (h1.1 q hq).1, ((h2.1 q hq).2.1).trans (h1.1 q hq).2.1,
+      ((h2.1 q hq).2.2.1).trans (h1.1 q hq).2.2.1, ((h2.1 q hq).2.2.2).trans (h1.1 q hq).2.2.2⟩,
+   fun q hq => (h2.2 q hq).trans (h1.2 q hq)⟩
+
+/-- a state that differs from `s` only in slots of phases inside `P` / `Dp` (and in shared or ghost
+fields) -/
+theorem kept_of {P Dp : Ph → Prop} {s s' : St Ph C β σ τ π κ}
+    (h1 : ∀ q, ¬ P q → s'.dfCache q = s.dfCache q) (h2 : ∀ q, ¬ P q → s'.points q = s.points q)
+    (h3 : ∀ q, ¬ P q → s'.curvCache q = s.curvCache q) (h4 : ∀ q, ¬ P q → s'.curvOut q = s.curvOut q)
+    (h5 : ∀ q, ¬ Dp q → s'.diffCache q = s.diffCache q) : Kept P Dp s s' :=
+  ⟨fun q hq => ⟨h1 q hq, h2 q hq, h3 q hq, h4 q hq⟩, h5⟩
+
+theorem upd_other {γ : Type} (f : Ph → γ) (p q : Ph) (v : γ) (h : ¬ q = p) : upd f p v q = f q := by
+  simp [upd, h]
+
+variable (p : Ph) (Dp : Ph → Prop)
+
+/-- the relation used for a query about precipitate phase `p`: only entries of `p` may change -/
+abbrev KeptP (s s' : St Ph C β σ τ π κ) : Prop := Kept (fun q => q = p) Dp s s'
+
+theorem keptP_nop {s s' : St Ph C β σ τ π κ} (h1 : s'.dfCache = s.dfCache) (h2 : s'.points = s.points)
+    (h3 : s'.curvCache = s.curvCache) (h4 : s'.curvOut = s.curvOut) (h5 : s'.diffCache = s.diffCache) :
+    KeptP p Dp s s' :=
+  kept_of (fun _ _ => by rw [h1]) (fun _ _ => by rw [h2]) (fun _ _ => by rw [h3]) (fun _ _ => by rw [h4])
+    (fun _ _ => by rw [h5])
+
+theorem keptP_df (u : St Ph C β σ τ π κ) (c : Option (List (CS β σ))) :
+    KeptP p Dp u { u with dfCache := upd u.dfCache p c } :=
+  kept_of (fun q hq => upd_other _ p q c hq) (fun _ _ => rfl) (fun _ _ => rfl) (fun _ _ => rfl) (fun _ _ => rfl)
+
+theorem keptP_callSolve (s : St Ph C β σ τ π κ) (c : C) (st : Option (List (CS β σ))) :
+    KeptP p Dp s (callSolve E s c st).2 := keptP_nop p Dp rfl rfl rfl rfl rfl
+
+theorem keptP_localEq (s : St Ph C β σ τ π κ) (c : C) (st : Option (List (CS β σ))) :
+    KeptP p Dp s (localEq E s c st).2 := keptP_nop p Dp rfl rfl rfl rfl rfl
+
+theorem keptP_getSamples (s : St Ph C β σ τ π κ) (T : τ) : KeptP p Dp s (getSamples E s p T).2 := by
+  have fresh_case : KeptP p Dp s
+      { s with points := upd s.points p (some (T, E.sample T s.dens p)), used := s.used ++ [(T, T)],
+               sampled := s.sampled ++ [(T, s.dens)] } :=
+    kept_of (fun _ _ => rfl) (fun q hq => upd_other _ p q _ hq) (fun _ _ => rfl) (fun _ _ => rfl) (fun _ _ => rfl)
+  unfold getSamples
+  split
+  · split
+    · exact keptP_nop p Dp rfl rfl rfl rfl rfl
+    · exact fresh_case
+  · exact fresh_case
+
+theorem keptP_resetDF (s : St Ph C β σ τ π κ) (rm : Bool) : KeptP p Dp s (resetDF s p rm) := by
+  unfold resetDF
+  split
+  · exact kept_of (fun q hq => upd_other _ p q _ hq) (fun q hq => upd_other _ p q _ hq) (fun _ _ => rfl)
+      (fun _ _ => rfl) (fun _ _ => rfl)
+  · exact Kept.refl _ _ s
+
+theorem keptP_matrixEq (s : St Ph C β σ τ π κ) (x : χ) (T : τ) : KeptP p Dp s (matrixEq E s x T).2 :=
+  keptP_nop p Dp rfl rfl rfl rfl rfl
+
+theorem keptP_dfSampling (s : St Ph C β σ τ π κ) (x : χ) (T : τ) (rm : Bool) :
+    KeptP p Dp s (dfSampling E s x T p rm).2 := by
+  unfold dfSampling
+  dsimp only
+  split
+  · exact ((keptP_matrixEq E p Dp s x T).trans (keptP_getSamples E p Dp _ T)).trans (keptP_resetDF p Dp _ rm)
+  · exact keptP_matrixEq E p Dp s x T
+
+theorem keptP_ensurePrecSet (s : St Ph C β σ τ π κ) (T : τ) (mu : ρ) :
+    KeptP p Dp s (ensurePrecSet E s p T mu) := by
+  unfold ensurePrecSet
+  split
+  · exact Kept.refl _ _ s
+  · exact (keptP_getSamples E p Dp s T).trans (keptP_df p Dp _ _)
+
+theorem keptP_dfTangentTail (s : St Ph C β σ τ π κ) (r : Res ρ β σ) (x : χ) (T : τ) (rm : Bool) :
+    KeptP p Dp s (dfTangentTail E s r x T p rm).2 := by
+  have h3 := ((keptP_ensurePrecSet E p Dp s T r.out).trans
+    (keptP_localEq E p Dp (ensurePrecSet E s p T r.out) (E.condMu T r.out p)
+      ((ensurePrecSet E s p T r.out).dfCache p))).trans (keptP_df p Dp _ (some
+    (localEq E (ensurePrecSet E s p T r.out) (E.condMu T r.out p)
+      ((ensurePrecSet E s p T r.out).dfCache p)).1.sets))
+  unfold dfTangentTail
+  dsimp only
+  split
+  · split
+    · exact (h3.trans (keptP_df p Dp _ none)).trans (keptP_dfSampling E p Dp _ x T rm)
+    · exact h3.trans (keptP_resetDF p Dp _ rm)
+  · exact h3
+
+theorem keptP_dfTangent (s : St Ph C β σ τ π κ) (x : χ) (T : τ) (rm : Bool) :
+    KeptP p Dp s (dfTangent E s x T p rm).2 := by
+  unfold dfTangent
+  dsimp only
+  split
+  · exact (keptP_matrixEq E p Dp s x T).trans (keptP_dfTangentTail E p Dp _ _ x T rm)
+  · exact keptP_matrixEq E p Dp s x T
+
+variable (cfg : Cfg)
+
+theorem keptP_compSetsTail (r : Res ρ β σ) (s : St Ph C β σ τ π κ) (x : χ) (T : τ) :
+    KeptP p Dp s (compSetsTail E cfg r s x T p).2 := by
+  unfold compSetsTail
+  dsimp only
+  split
+  · split
+    · split
+      · exact keptP_localEq E p Dp s _ _
+      · exact Kept.refl _ _ s
+    · exact Kept.refl _ _ s
+  · exact Kept.refl _ _ s
+
+theorem keptP_compSetsEq (s : St Ph C β σ τ π κ) (x : χ) (T : τ) (cached : Option (List (CS β σ))) :
+    KeptP p Dp s (compSetsEq E cfg s x T p cached).2.1 := by
+  have h1 : KeptP p Dp s (compSetsHead E cfg s x T p cached).2 := by
+    cases cached
+    · exact keptP_callSolve E p Dp s _ _
+    · exact keptP_localEq E p Dp s _ _
+  exact h1.trans (keptP_compSetsTail E p Dp cfg _ _ x T)
+
+theorem keptP_search (x : χ) (T : τ) (dir : χ) :
+    ∀ (n : Nat) (cur : χ) (s : St Ph C β σ τ π κ), KeptP p Dp s (search E cfg x T p dir n cur s).2
+  | 0, _, s => Kept.refl _ _ s
+  | n + 1, cur, s => by
+    have h0 := keptP_compSetsEq E p Dp cfg s cur T none
+    unfold search
+    dsimp only
+    split
+    · exact h0
+    · exact h0
+    · exact h0.trans (keptP_search x T dir n _ _)
+    · exact h0.trans (keptP_search x T dir n _ _)
+
+theorem keptP_curvSlots (u : St Ph C β σ τ π κ) (c : Option (List (CS β σ))) (k : Option κ) :
+    KeptP p Dp u { u with curvCache := upd u.curvCache p c, curvOut := upd u.curvOut p k } :=
+  kept_of (fun _ _ => rfl) (fun _ _ => rfl) (fun q hq => upd_other _ p q c hq) (fun q hq => upd_other _ p q k hq)
+    (fun _ _ => rfl)
+
+theorem keptP_curvSlot (u : St Ph C β σ τ π κ) (c : Option (List (CS β σ))) :
+    KeptP p Dp u { u with curvCache := upd u.curvCache p c } :=
+  kept_of (fun _ _ => rfl) (fun _ _ => rfl) (fun q hq => upd_other _ p q c hq) (fun _ _ => rfl) (fun _ _ => rfl)
+
+theorem keptP_curvInvalid (s : St Ph C β σ τ π κ) (rm : Bool) : KeptP p Dp s (curvInvalid s p rm).2 := by
+  have : KeptP p Dp s (if rm = true then { s with curvCache := upd s.curvCache p none } else s) := by
+    split
+    · exact keptP_curvSlot p Dp s none
+    · exact Kept.refl _ _ s
+  unfold curvInvalid
+  dsimp only
+  split <;> exact this
+
+theorem keptP_aliasCurv (s : St Ph C β σ τ π κ) (l : Option (List (CS β σ))) : KeptP p Dp s (aliasCurv s p l) := by
+  cases l with
+  | none => exact Kept.refl _ _ s
+  | some l => exact keptP_curvSlot p Dp s (some l)
+
+/-- **writes, curvature factors**: `curvatureFactor(…, precPhase = p)` changes no entry of another phase -/
+theorem keptP_curvature (s : St Ph C β σ τ π κ) (x : χ) (T : τ) (rm : Bool) (dir : Option χ) :
+    KeptP p Dp s (curvature E cfg s x T p rm dir).2 := by
+  have h0 := (keptP_compSetsEq E p Dp cfg s x T (s.curvCache p)).trans
+    (keptP_aliasCurv p Dp _ (compSetsEq E cfg s x T p (s.curvCache p)).2.2)
+  unfold curvature
+  dsimp only
+  split
+  · exact h0.trans (keptP_curvInvalid p Dp _ rm)
+  · exact h0.trans (keptP_curvSlots p Dp _ _ _)
+  · split
+    · exact h0.trans (keptP_curvInvalid p Dp _ rm)
+    · split
+      · exact (h0.trans (keptP_search E p Dp cfg x T _ _ _ _)).trans (keptP_curvInvalid p Dp _ rm)
+      · exact (h0.trans (keptP_search E p Dp cfg x T _ _ _ _)).trans (keptP_curvSlots p Dp _ _ _)
+
+theorem keptP_dfEqBased (approx : Bool) (s : St Ph C β σ τ π κ) (x : χ) (T : τ) (rm : Bool) :
+    KeptP p Dp s (dfEqBased E cfg approx s x T p rm).2 := by
+  have h0 := keptP_compSetsEq E p Dp cfg s x T (s.dfCache p)
+  unfold dfEqBased
+  dsimp only
+  split
+  · split
+    · split
+      · exact ((h0.trans (keptP_df p Dp _ _)).trans (keptP_matrixEq E p Dp _ x T)).trans (keptP_resetDF p Dp _ rm)
+      · exact (h0.trans (keptP_df p Dp _ _)).trans (keptP_matrixEq E p Dp _ x T)
+    · exact (h0.trans (keptP_df p Dp _ _)).trans (keptP_resetDF p Dp _ rm)
+  · exact (h0.trans (keptP_df p Dp _ _)).trans (keptP_dfSampling E p Dp _ x T rm)
+
+/-- **writes, driving force**: `getDrivingForce(…, precPhase = p)` (any method) changes no entry of
+another precipitate phase and no diffusivity entry at all -/
+theorem kept_drivingForce (m : DFMethod) (s : St Ph C β σ τ π κ) (x : χ) (T : τ) (rm : Bool) :
+    Kept (fun q => q = p) (fun _ => False) s (drivingForce E cfg m s x T p rm).2 := by
+  cases m
+  · exact keptP_dfTangent E p _ s x T rm
+  · exact keptP_dfSampling E p _ s x T rm
+  · exact keptP_dfEqBased E p _ cfg true s x T rm
+  · exact keptP_dfEqBased E p _ cfg false s x T rm
+
+/-- **writes, diffusivities**: `getInterdiffusivity / getTracerDiffusivity(…, phase = ph)` change
+`_diffusivity_cache[ph]` and nothing else -/
+theorem kept_diffSingle (post : Res ρ β σ → D) (s : St Ph C β σ τ π κ) (x : χ) (T : τ) (ph : Ph) (rm : Bool) :
+    Kept (fun _ => False) (fun q => q = ph) s (diffSingle E post s x T ph rm).2 :=
+  kept_of (fun _ _ => rfl) (fun _ _ => rfl) (fun _ _ => rfl) (fun _ _ => rfl)
+    (fun q hq => upd_other _ ph q _ hq)
+
+
+/-! reads -/
+
+/-- two states hold the same entries for precipitate phase `p`, diffusivity phase `ph`, the shared
+`_matrix_cs` and the sampling density — the entries of all OTHER phases (and the ghost logs) are arbitrary -/
+structure Agree (p ph : Ph) (s s' : St Ph C β σ τ π κ) : Prop where
+  df : s.dfCache p = s'.dfCache p
+  mat : s.matrixCs = s'.matrixCs
+  pts : s.points p = s'.points p
+  dens : s.dens = s'.dens
+  diff : s.diffCache ph = s'.diffCache ph
+  cc : s.curvCache p = s'.curvCache p
+  co : s.curvOut p = s'.curvOut p
+
+/-- same answer, and the own-phase entries agree afterwards -/
+def Sim {α : Type} (p ph : Ph) (a b : α × St Ph C β σ τ π κ) : Prop := a.1 = b.1 ∧ Agree p ph a.2 b.2
+
+variable (ph : Ph) {s s' : St Ph C β σ τ π κ}
+
+theorem agree_callSolve (h : Agree p ph s s') (c : C) (st : Option (List (CS β σ))) :
+    Sim p ph (callSolve E s c st) (callSolve E s' c st) :=
+  ⟨rfl, ⟨h.df, h.mat, h.pts, h.dens, h.diff, h.cc, h.co⟩⟩
+
+theorem agree_localEq (h : Agree p ph s s') (c : C) (st : Option (List (CS β σ))) :
+    Sim p ph (localEq E s c st) (localEq E s' c st) :=
+  ⟨rfl, ⟨h.df, h.mat, h.pts, h.dens, h.diff, h.cc, h.co⟩⟩
+
+theorem agree_getSamples (h : Agree p ph s s') (T : τ) :
+    Sim p ph (getSamples E s p T) (getSamples E s' p T) := by
+  unfold getSamples
+  rw [h.pts, h.dens]
+  split
+  · split
+    · exact ⟨rfl, ⟨h.df, h.mat, h.pts, h.dens, h.diff, h.cc, h.co⟩⟩
+    · exact ⟨rfl, ⟨h.df, h.mat, by simp [upd], rfl, h.diff, h.cc, h.co⟩⟩
+  · exact ⟨rfl, ⟨h.df, h.mat, by simp [upd], rfl, h.diff, h.cc, h.co⟩⟩
+
+theorem agree_sampleDF (h : Agree p ph s s') (T : τ) (mu : ρ) :
+    Sim p ph (sampleDF E s p T mu) (sampleDF E s' p T mu) := by
+  obtain ⟨h1, h2⟩ := agree_getSamples E p ph h T
+  exact ⟨by simp only [sampleDF, h1], h2⟩
+
+theorem agree_resetDF (h : Agree p ph s s') (rm : Bool) : Agree p ph (resetDF s p rm) (resetDF s' p rm) := by
+  unfold resetDF
+  split
+  · exact ⟨by simp [upd], rfl, by simp [upd], h.dens, h.diff, h.cc, h.co⟩
+  · exact h
+
+theorem agree_df_slot (h : Agree p ph s s') (c : Option (List (CS β σ))) :
+    Agree p ph { s with dfCache := upd s.dfCache p c } { s' with dfCache := upd s'.dfCache p c } :=
+  ⟨by simp [upd], h.mat, h.pts, h.dens, h.diff, h.cc, h.co⟩
+
+theorem agree_matrixEq (h : Agree p ph s s') (x : χ) (T : τ) :
+    Sim p ph (matrixEq E s x T) (matrixEq E s' x T) := by
+  unfold matrixEq
+  dsimp only
+  rw [h.mat]
+  exact ⟨rfl, ⟨h.df, rfl, h.pts, h.dens, h.diff, h.cc, h.co⟩⟩
+
+theorem agree_dfSampling (h : Agree p ph s s') (x : χ) (T : τ) (rm : Bool) :
+    Sim p ph (dfSampling E s x T p rm) (dfSampling E s' x T p rm) := by
+  obtain ⟨h1, h2⟩ := agree_matrixEq E p ph h x T
+  obtain ⟨h3, h4⟩ := agree_sampleDF E p ph h2 T (matrixEq E s' x T).1.out
+  unfold dfSampling
+  dsimp only
+  rw [h1]
+  by_cases hv : E.valid (matrixEq E s' x T).1.out = true
+  · simp only [hv, if_true]
+    exact ⟨by rw [h3], agree_resetDF p ph h4 rm⟩
+  · simp only [hv, if_false]
+    exact ⟨rfl, h2⟩
+
+theorem agree_ensurePrecSet (h : Agree p ph s s') (T : τ) (mu : ρ) :
+    Agree p ph (ensurePrecSet E s p T mu) (ensurePrecSet E s' p T mu) := by
+  obtain ⟨h1, h2⟩ := agree_sampleDF E p ph h T mu
+  unfold ensurePrecSet
+  rw [← h.df]
+  split
+  · exact h
+  · dsimp only
+    rw [h1]
+    exact agree_df_slot p ph h2 _
+
+theorem agree_dfTangentTail (h : Agree p ph s s') (r : Res ρ β σ) (x : χ) (T : τ) (rm : Bool) :
+    Sim p ph (dfTangentTail E s r x T p rm) (dfTangentTail E s' r x T p rm) := by
+  have h1 := agree_ensurePrecSet E p ph h T r.out
+  obtain ⟨h2, h3⟩ := agree_localEq E p ph h1 (E.condMu T r.out p) ((ensurePrecSet E s' p T r.out).dfCache p)
+  unfold dfTangentTail
+  dsimp only
+  rw [h1.df, h2]
+  have h4 := agree_df_slot p ph h3 (some (localEq E (ensurePrecSet E s' p T r.out) (E.condMu T r.out p)
+    ((ensurePrecSet E s' p T r.out).dfCache p)).1.sets)
+  by_cases hv : E.valid (localEq E (ensurePrecSet E s' p T r.out) (E.condMu T r.out p)
+      ((ensurePrecSet E s' p T r.out).dfCache p)).1.out = true
+  · simp only [hv, if_true]
+    by_cases hd : E.degenerate (localEq E (ensurePrecSet E s' p T r.out) (E.condMu T r.out p)
+        ((ensurePrecSet E s' p T r.out).dfCache p)).1.sets r.sets = true
+    · simp only [hd, if_true]
+      exact agree_dfSampling E p ph (agree_df_slot p ph h4 none) x T rm
+    · simp only [hd, if_false]
+      exact ⟨rfl, agree_resetDF p ph h4 rm⟩
+  · simp only [hv, if_false]
+    exact ⟨rfl, h4⟩
+
+theorem agree_dfTangent (h : Agree p ph s s') (x : χ) (T : τ) (rm : Bool) :
+    Sim p ph (dfTangent E s x T p rm) (dfTangent E s' x T p rm) := by
+  obtain ⟨h1, h2⟩ := agree_matrixEq E p ph h x T
+  unfold dfTangent
+  dsimp only
+  rw [h1]
+  by_cases hv : E.valid (matrixEq E s' x T).1.out = true
+  · simp only [hv, if_true]
+    exact agree_dfTangentTail E p ph h2 _ x T rm
+  · simp only [hv, if_false]
+    exact ⟨rfl, h2⟩
+
+theorem agree_compSetsTail (h : Agree p ph s s') (r : Res ρ β σ) (x : χ) (T : τ) :
+    Sim p ph (compSetsTail E cfg r s x T p) (compSetsTail E cfg r s' x T p) := by
+  unfold compSetsTail
+  dsimp only
+  split
+  · split
+    · split
+      · exact ⟨rfl, (agree_localEq E p ph h _ _).2⟩
+      · exact ⟨rfl, h⟩
+    · exact ⟨rfl, h⟩
+  · exact ⟨rfl, h⟩
+
+theorem agree_compSetsEq (h : Agree p ph s s') (x : χ) (T : τ) (cached : Option (List (CS β σ))) :
+    (compSetsEq E cfg s x T p cached).1 = (compSetsEq E cfg s' x T p cached).1 ∧
+    Agree p ph (compSetsEq E cfg s x T p cached).2.1 (compSetsEq E cfg s' x T p cached).2.1 ∧
+    (compSetsEq E cfg s x T p cached).2.2 = (compSetsEq E cfg s' x T p cached).2.2 := by
+  have h1 : Sim p ph (compSetsHead E cfg s x T p cached) (compSetsHead E cfg s' x T p cached) := by
+    cases cached
+    · exact agree_callSolve E p ph h _ _
+    · exact agree_localEq E p ph h _ _
+  unfold compSetsEq
+  dsimp only
+  rw [h1.1]
+  obtain ⟨h2, h3⟩ := agree_compSetsTail E p cfg ph h1.2 (compSetsHead E cfg s' x T p cached).1 x T
+  exact ⟨h2, h3, rfl⟩
+
+theorem agree_search (x : χ) (T : τ) (dir : χ) :
+    ∀ (n : Nat) (cur : χ) (s s' : St Ph C β σ τ π κ), Agree p ph s s' →
+      Sim p ph (search E cfg x T p dir n cur s) (search E cfg x T p dir n cur s')
+  | 0, _, _, _, h => ⟨rfl, h⟩
+  | n + 1, cur, s, s', h => by
+    obtain ⟨h1, h2, _⟩ := agree_compSetsEq E p cfg ph h cur T none
+    unfold search
+    dsimp only
+    rw [h1]
+    rcases (compSetsEq E cfg s' cur T p none).1 with _ | ⟨mu, m, pr⟩
+    · exact ⟨rfl, h2⟩
+    · cases m <;> cases pr
+      · exact agree_search x T dir n _ _ _ h2
+      · exact agree_search x T dir n _ _ _ h2
+      · exact agree_search x T dir n _ _ _ h2
+      · exact ⟨rfl, h2⟩
+
+theorem agree_curvInvalid (h : Agree p ph s s') (rm : Bool) :
+    Sim p ph (curvInvalid s p rm) (curvInvalid s' p rm) := by
+  unfold curvInvalid
+  dsimp only
+  cases rm
+  · simp only [Bool.false_eq_true, if_false]
+    rw [h.cc, h.co]
+    split <;> exact ⟨rfl, h⟩
+  · simp only [if_true]
+    exact ⟨by simp [upd], ⟨h.df, h.mat, h.pts, h.dens, h.diff, by simp [upd], h.co⟩⟩
+
+theorem agree_curvFinish (h : Agree p ph s s') (rm : Bool) (mu : ρ) (m pr : CS β σ) :
+    Sim p ph (curvFinish E s p rm mu m pr) (curvFinish E s' p rm mu m pr) := by
+  unfold curvFinish
+  dsimp only
+  rw [h.co]
+  exact ⟨rfl, ⟨h.df, h.mat, h.pts, h.dens, h.diff, by simp [upd], by simp [upd]⟩⟩
+
+theorem agree_aliasCurv (h : Agree p ph s s') (l : Option (List (CS β σ))) :
+    Agree p ph (aliasCurv s p l) (aliasCurv s' p l) := by
+  cases l with
+  | none => exact h
+  | some l => exact ⟨h.df, h.mat, h.pts, h.dens, h.diff, by simp [aliasCurv, upd], h.co⟩
+
+/-- **reads, curvature factors**: the answer of `curvatureFactor(…, precPhase = p)` and the entries of
+`p` afterwards do not depend on what the entries of the other phases hold -/
+theorem agree_curvature (h : Agree p ph s s') (x : χ) (T : τ) (rm : Bool) (dir : Option χ) :
+    Sim p ph (curvature E cfg s x T p rm dir) (curvature E cfg s' x T p rm dir) := by
+  obtain ⟨h1, h2, h3⟩ := agree_compSetsEq E p cfg ph h x T (s'.curvCache p)
+  unfold curvature
+  dsimp only
+  rw [h.cc, h1, h3]
+  have ha := agree_aliasCurv p ph h2 (compSetsEq E cfg s' x T p (s'.curvCache p)).2.2
+  rcases (compSetsEq E cfg s' x T p (s'.curvCache p)).1 with _ | ⟨mu, m, pr⟩
+  · exact agree_curvInvalid p ph ha rm
+  · have tail : ∀ d : χ,
+        Sim p ph
+          (match (search E cfg x T p d 15 (E.mid x d) (aliasCurv (compSetsEq E cfg s x T p (s'.curvCache p)).2.1 p
+              (compSetsEq E cfg s' x T p (s'.curvCache p)).2.2)).1 with
+            | none => curvInvalid (search E cfg x T p d 15 (E.mid x d) (aliasCurv (compSetsEq E cfg s x T p (s'.curvCache p)).2.1 p
+                (compSetsEq E cfg s' x T p (s'.curvCache p)).2.2)).2 p rm
+            | some (mu, m, pr) => curvFinish E (search E cfg x T p d 15 (E.mid x d) (aliasCurv (compSetsEq E cfg s x T p (s'.curvCache p)).2.1 p
+                (compSetsEq E cfg s' x T p (s'.curvCache p)).2.2)).2 p rm mu m pr)
+          (match (search E cfg x T p d 15 (E.mid x d) (aliasCurv (compSetsEq E cfg s' x T p (s'.curvCache p)).2.1 p
+              (compSetsEq E cfg s' x T p (s'.curvCache p)).2.2)).1 with
+            | none => curvInvalid (search E cfg x T p d 15 (E.mid x d) (aliasCurv (compSetsEq E cfg s' x T p (s'.curvCache p)).2.1 p
+                (compSetsEq E cfg s' x T p (s'.curvCache p)).2.2)).2 p rm
+            | some (mu, m, pr) => curvFinish E (search E cfg x T p d 15 (E.mid x d) (aliasCurv (compSetsEq E cfg s' x T p (s'.curvCache p)).2.1 p
+                (compSetsEq E cfg s' x T p (s'.curvCache p)).2.2)).2 p rm mu m pr) := by
+      intro d
+      obtain ⟨g1, g2⟩ := agree_search E p cfg ph x T d 15 (E.mid x d) _ _ ha
+      rw [g1]
+      rcases (search E cfg x T p d 15 (E.mid x d) (aliasCurv (compSetsEq E cfg s' x T p (s'.curvCache p)).2.1 p
+          (compSetsEq E cfg s' x T p (s'.curvCache p)).2.2)).1 with _ | ⟨mu', m', pr'⟩
+      · exact agree_curvInvalid p ph g2 rm
+      · exact agree_curvFinish E p ph g2 rm mu' m' pr'
+    cases m with
+    | none =>
+      cases dir with
+      | none => exact agree_curvInvalid p ph ha rm
+      | some d => exact tail d
+    | some m =>
+      cases pr with
+      | none =>
+        cases dir with
+        | none => exact agree_curvInvalid p ph ha rm
+        | some d => exact tail d
+      | some pr => exact agree_curvFinish E p ph ha rm mu m pr
+
+theorem agree_dfEqBased (h : Agree p ph s s') (approx : Bool) (x : χ) (T : τ) (rm : Bool) :
+    Sim p ph (dfEqBased E cfg approx s x T p rm) (dfEqBased E cfg approx s' x T p rm) := by
+  obtain ⟨h1, h2, _⟩ := agree_compSetsEq E p cfg ph h x T (s'.dfCache p)
+  have hsamp := agree_dfSampling E p ph (agree_df_slot p ph h2 none) x T rm
+  unfold dfEqBased
+  dsimp only
+  rw [h.df, h1]
+  rcases (compSetsEq E cfg s' x T p (s'.dfCache p)).1 with _ | ⟨mu, m, pr⟩
+  · exact hsamp
+  · cases m with
+    | none => exact hsamp
+    | some m =>
+      cases pr with
+      | none => exact hsamp
+      | some pr =>
+        dsimp only
+        have hs := agree_df_slot p ph h2 (some [m, pr])
+        cases approx
+        · simp only [Bool.false_eq_true, if_false]
+          exact ⟨rfl, agree_resetDF p ph hs rm⟩
+        · simp only [if_true]
+          obtain ⟨g1, g2⟩ := agree_matrixEq E p ph hs x T
+          rw [g1]
+          by_cases hv : E.valid (matrixEq E { (compSetsEq E cfg s' x T p (s'.dfCache p)).2.1 with
+              dfCache := upd (compSetsEq E cfg s' x T p (s'.dfCache p)).2.1.dfCache p (some [m, pr]) } x T).1.out = true
+          · simp only [hv, if_true]
+            exact ⟨rfl, agree_resetDF p ph g2 rm⟩
+          · simp only [hv, if_false]
+            exact ⟨rfl, g2⟩
+
+/-- **reads, driving force**: the answer of `getDrivingForce(…, precPhase = p)` (any method) and the
+entries of `p` afterwards do not depend on the entries of the other phases -/
+theorem agree_drivingForce (h : Agree p ph s s') (m : DFMethod) (x : χ) (T : τ) (rm : Bool) :
+    Sim p ph (drivingForce E cfg m s x T p rm) (drivingForce E cfg m s' x T p rm) := by
+  cases m
+  · exact agree_dfTangent E p ph h x T rm
+  · exact agree_dfSampling E p ph h x T rm
+  · exact agree_dfEqBased E p cfg ph h true x T rm
+  · exact agree_dfEqBased E p cfg ph h false x T rm
+
+/-- **reads, diffusivities**: `getInterdiffusivity / getTracerDiffusivity(…, phase = ph)` read
+`_diffusivity_cache[ph]` only -/
+theorem agree_diffSingle (h : Agree p ph s s') (post : Res ρ β σ → D) (x : χ) (T : τ) (rm : Bool) :
+    Sim p ph (diffSingle E post s x T ph rm) (diffSingle E post s' x T ph rm) := by
+  unfold diffSingle
+  dsimp only
+  rw [h.diff]
+  exact ⟨rfl, ⟨h.df, h.mat, h.pts, h.dens, by simp [upd, localEq, callSolve], h.cc, h.co⟩⟩
+
+/-- **a query for phase p never reads an entry written for a phase q ≠ p**: overwrite, in any way,
+the entries of any other phases (`s'` agrees with `s` on the own-phase entries only) — every
+public query gives the same answer. -/
+theorem query_ignores_other_phases (ip tp : Res ρ β σ → D) (h : Agree p ph s s') :
+    (∀ x T rm, (runQuery E cfg ip tp s (.interdiff x T ph rm)).1 = (runQuery E cfg ip tp s' (.interdiff x T ph rm)).1) ∧
+    (∀ x T rm, (runQuery E cfg ip tp s (.tracer x T ph rm)).1 = (runQuery E cfg ip tp s' (.tracer x T ph rm)).1) ∧
+    (∀ m x T rm, (runQuery E cfg ip tp s (.df m x T p rm)).1 = (runQuery E cfg ip tp s' (.df m x T p rm)).1) ∧
+    (∀ x T rm dir, (runQuery E cfg ip tp s (.curv x T p rm dir)).1 = (runQuery E cfg ip tp s' (.curv x T p rm dir)).1) := by
+  refine ⟨fun x T rm => ?_, fun x T rm => ?_, fun m x T rm => ?_, fun x T rm dir => ?_⟩
+  · show Ans.diff _ = Ans.diff _
+    rw [(agree_diffSingle E p ph h ip x T rm).1]
+  · show Ans.diff _ = Ans.diff _
+    rw [(agree_diffSingle E p ph h tp x T rm).1]
+  · show Ans.df _ = Ans.df _
+    rw [(agree_drivingForce E p cfg ph h m x T rm).1]
+  · show Ans.curv _ = Ans.curv _
+    rw [(agree_curvature E p cfg ph h x T rm dir).1]
+
+/-- non-vacuity: a state and the same state with another phase's diffusivity entry overwritten agree on `ph` -/
+example (s : St Ph C β σ τ π κ) (q : Ph) (hq : q ≠ ph) (v : Option (List (CS β σ))) :
+    Agree p ph s { s with diffCache := upd s.diffCache q v } :=
+  ⟨rfl, rfl, rfl, rfl, by simp [upd, hq.symm], rfl, rfl⟩
+
+end phasekeys
+
 /-! ### array queries of the thermodynamics classes (compositions are lists, temperatures scalars) -/
 section arrays
 open KawinV.CompSetCache KawinV.Broadcast
